@@ -500,7 +500,8 @@ class DeserializationMethodVisitor(
             ):
                 constructor = FieldsConstructor(
                     cls,
-                    len(fields),
+                    # every field of the class, the ones skipped by deserialization included: they get their default
+                    len(dataclasses.fields(cls)),
                     tuple(
                         DefaultField(f.name, f.default)
                         for f in dataclasses.fields(cls)
